@@ -17,9 +17,12 @@ Pipeline:
 Verdicts only from step 4 (real replies), from race reports inside package pipe, and from panics.
 Differences between the real replies and the mechanism model are MODEL-DRIFT.
 """
+import glob
 import json
+import os
 import random
 import re
+import subprocess
 
 from lib import vlib
 
@@ -177,10 +180,11 @@ def _split(res, label):
     return events, summ, crash
 
 
-def run_all(ctx, sched_cases, conc_cases, label="", selftest=True):
-    """Execute schedules and scenarios on the real code, validate everything recorded with TLC."""
+def run_all(ctx, sched_cases, conc_cases, label="", selftest=True, ext=None):
+    """Execute schedules and scenarios on the real code, validate everything recorded with TLC.
+    ext: [(info, events)] already recorded elsewhere (pipes of the repository's existing tests)."""
     events = []
-    origin = {}          # cid -> ("replay"|"conc", case)
+    origin = {}          # cid -> ("replay"|"conc"|"tests", case)
     cid = 0
     for c in sched_cases:
         cid += 1
@@ -211,6 +215,14 @@ def run_all(ctx, sched_cases, conc_cases, label="", selftest=True):
         if not evs:
             raise vlib.MachineryError("pipe harness (%s) recorded no events" % mode)
         events += evs
+    for info, evs in (ext or []):
+        cid += 1
+        origin[cid] = ("tests", info)
+        for e in evs:
+            e["cid"] = cid
+            events.append(e)
+    if not events:
+        raise vlib.MachineryError("nothing recorded (%s)" % label)
     by_cid = {}
     for e in events:
         by_cid.setdefault(e["cid"], []).append(e)
@@ -250,6 +262,8 @@ def run_all(ctx, sched_cases, conc_cases, label="", selftest=True):
         ev = events[b["l"] - 1]
         flags = "".join(ch for ch, on in (("c", ev["fc"]), ("b", ev["fb"]), ("r", ev["fr"])) if on) or "-"
         sig = "%s/%s/%s/%s" % (b["why"], ev["ev"], mode, flags)
+        if mode == "tests":
+            sig += "/%s:%s" % (case["pkg"], "+".join(case["tests"][:3]))
         k = sum(1 for e in events[:b["l"]] if e["cid"] == b["cid"])
         det = "%s case cid=%d, event #%d of the case: %s %s; events of the case: %s" % (
             mode, b["cid"], k, json.dumps(ev), details.get(b["l"], ""),
@@ -271,7 +285,8 @@ def run_all(ctx, sched_cases, conc_cases, label="", selftest=True):
     for cid_, evs in by_cid.items():
         mode, case = origin[cid_]
         key = case.get("ops") if mode == "replay" else [[e["ev"], e["asked"], e["n"], e["err"]] for e in evs]
-        ctx.count({"cap": case["cap"], "k": key}, nontrivial=any(e["ev"] == "read" for e in evs))
+        ctx.count({"cap": case.get("cap"), "k": key, "t": case.get("tests")},
+                  nontrivial=any(e["ev"] == "read" for e in evs))
     shown = 0
     for cid_, evs in by_cid.items():
         if shown < 2 and len(evs) > 5:
@@ -281,12 +296,100 @@ def run_all(ctx, sched_cases, conc_cases, label="", selftest=True):
     return nbad
 
 
+# ---------------------------------------------------------------------------- existing tests
+TEST_PKGS = {"bfe_http2": "bfe_http2", "bfe_spdy": "bfe_spdy", "bfe_util/pipe": "pipe"}
+UNBOUNDED = 1 << 30
+
+
+def existing_tests(ctx, pkgs):
+    """Run the repository's own tests of `pkgs` with a test-only tracer ADDED to each test binary
+    (go test -overlay; nothing is written into the repository) and return [(info, events)], one
+    entry per pipe object those tests created, in the TracePipe event format."""
+    repo = vlib.REPO
+    hook = os.path.join(repo, "bfe_util/pipe/zz_verif_trace.go")
+    if not os.path.exists(hook) or "VerifSetDefaultTracer" not in open(hook).read():
+        msg = ("existing-tests stage NOT RUN: %s lacks pipe.VerifSetDefaultTracer (second `verif hooks:` "
+               "commit of branch verif-pipe)" % repo)
+        print("NOTE " + msg)
+        ctx.notes.append(msg)
+        ctx.cov["existing_tests"] = {"skipped": msg}
+        return []
+    d = os.path.join(ctx.scratch, "xt")
+    os.makedirs(d, exist_ok=True)
+    tmpl = open(os.path.join(vlib.HARNESS, "overlay_tests", "pipe", "zz_verif_pipetrace_test.go.tmpl")).read()
+    ov = {}
+    for rel in pkgs:
+        dst = os.path.join(repo, rel, "zz_verif_pipetrace_test.go")
+        if os.path.exists(dst):
+            raise vlib.MachineryError("overlay must only add files: %s exists" % dst)
+        src = os.path.join(d, rel.replace("/", "_") + "_pipetrace_test.go")
+        open(src, "w").write(tmpl.replace("@PKG@", TEST_PKGS[rel]))
+        ov[dst] = src
+    json.dump({"Replace": ov}, open(os.path.join(d, "overlay.json"), "w"))
+    # private go.mod / go.sum so that -mod=mod can never rewrite the repository's
+    for f in ("go.mod", "go.sum"):
+        open(os.path.join(d, f), "w").write(open(os.path.join(repo, f)).read())
+    trace = os.path.join(d, "pt")
+    cmd = ["go", "test", "-modfile=" + os.path.join(d, "go.mod"), "-tags", "verif",
+           "-overlay", os.path.join(d, "overlay.json"), "-count=1", "-vet=off", "-timeout", "15m"] + \
+          ["./" + rel + "/" for rel in pkgs]
+    env = vlib._env({"VERIF_PIPE_TRACE": trace})
+    try:
+        p = subprocess.run(cmd, cwd=repo, env=env, stdout=subprocess.PIPE, stderr=subprocess.STDOUT,
+                           text=True, errors="replace", timeout=1200)
+    except subprocess.TimeoutExpired:
+        raise vlib.MachineryError("existing tests timed out: %s" % " ".join(cmd))
+    if p.returncode != 0:
+        raise vlib.MachineryError("existing tests did not pass (no verdict): %s\n%s" % (" ".join(cmd), p.stdout[-3000:]))
+    out, stats, ooc = [], {}, []
+    for rel in pkgs:
+        files = glob.glob("%s.%s.*" % (trace, TEST_PKGS[rel]))
+        lines = [json.loads(l) for f in files for l in open(f) if l.strip()] if len(files) == 1 else []
+        if not lines:
+            raise vlib.MachineryError("existing tests of %s recorded no pipe events (%d trace files)" % (rel, len(files)))
+        pipes = {}
+        for l in lines:
+            pipes.setdefault(l["pipe"], []).append(l)
+        tests = set()
+        nev = 0
+        for pid_, ls in sorted(pipes.items()):
+            ls.sort(key=lambda x: x["seq"])         # the hook's per-pipe order
+            if [x["seq"] for x in ls] != list(range(1, len(ls) + 1)):
+                raise vlib.MachineryError("%s pipe %d: sequence numbers not contiguous" % (rel, pid_))
+            names = ls[0].get("tests") or ["?"]
+            tests.update(names)
+            if sum(1 for x in ls if x["op"] == "release") > 1:
+                ooc.append("%s %s: Release called more than once (outside the contract, not judged)" % (rel, names))
+                continue
+            cap = next((x["cap"] for x in ls if x["cap"] >= 0), UNBOUNDED)
+            rel0 = ls[0]["fr"] and ls[0]["op"] != "release"
+            evs = [{"ev": "new", "cap": cap, "asked": 0, "n": 0, "err": "none", "data": [], "blen": -2,
+                    "fc": False, "fb": False, "fr": bool(rel0)}]
+            for x in ls:
+                evs.append({"ev": x["op"], "cap": cap, "asked": x["asked"], "n": x["n"], "err": x["err"],
+                            "data": list(bytes.fromhex(x["data"])), "blen": x["blen"],
+                            "fc": x["fc"], "fb": x["fb"], "fr": x["fr"], "seq": x["seq"]})
+            nev += len(ls)
+            out.append(({"pkg": rel, "tests": sorted(names), "pipe": pid_, "cap": cap}, evs))
+        stats[rel] = {"tests": len(tests - {"?"}), "pipes": len(pipes), "events": nev}
+    ctx.cov["existing_tests"] = {"packages": stats, "out_of_contract": ooc,
+                                 "tests": sum(v["tests"] for v in stats.values()),
+                                 "pipes": sum(v["pipes"] for v in stats.values()),
+                                 "events": sum(v["events"] for v in stats.values()),
+                                 "cmd": "cd %s && VERIF_PIPE_TRACE=<file> %s" % (repo, " ".join(cmd[:2] + cmd[3:]))}
+    for o in ooc:
+        ctx.assumptions.append("existing test outside the contract: " + o)
+    return out
+
+
 def check_c21(ctx):
     q = ctx.tier == "quick"
     ctx.cov["rule"] = ("TLC exhaustively checks Pipe.tla (writer, reader, closer over a FixedBuffer model) against "
                        "Layer P, deadlock freedom of the closed system and liveness under fairness. cases = "
                        "(a) TLC-enumerated and TLC-simulated sequential schedules replayed on real pipes, "
-                       "(b) seeded really-concurrent scenarios (3-4 goroutines, -race); every recorded event "
+                       "(b) seeded really-concurrent scenarios (3-4 goroutines, -race), (c) every pipe created by the "
+                       "repository's existing tests of bfe_util/pipe (quick) and bfe_http2, bfe_spdy (thorough), traced by "
+                       "a test-only file added with go test -overlay (see coverage.existing_tests); every recorded event "
                        "(ordered by the hook's per-pipe sequence number) is validated by TLC against Layer P. "
                        "distinct = distinct schedules / recorded event sequences containing a Read.")
     ctx.assumptions += [
@@ -328,7 +431,9 @@ def check_c21(ctx):
     ctx.cov["constants"]["Gen_simulate"] = g1
     cases += gen(ctx, g1, mode="sim", num=400 if q else 4000, depth=24)
     conc = scenarios(ctx, 300 if q else 3000)
-    run_all(ctx, cases, conc, label="C21")
+    # 3. the pipes the repository's existing tests create (quick: the pipe package's own tests only)
+    ext = existing_tests(ctx, ["bfe_util/pipe"] if q else ["bfe_http2", "bfe_spdy", "bfe_util/pipe"])
+    run_all(ctx, cases, conc, label="C21", ext=ext)
 
 
 PROPS = {"C21": check_c21}
@@ -337,7 +442,10 @@ PROPS = {"C21": check_c21}
 def replay(ctx, pid, rep):
     c = rep["case"]
     mode, case = c["mode"], c.get("case")
-    if "cases" in c:
+    if mode == "tests":
+        ext = [x for x in existing_tests(ctx, [case["pkg"]]) if set(x[0]["tests"]) & set(case["tests"])]
+        n = run_all(ctx, [], [], label="replay", selftest=False, ext=ext)
+    elif "cases" in c:
         # a race report: run the whole batch again
         cs = [dict(x) for x in c["cases"]]
         n = run_all(ctx, cs if mode == "replay" else [], cs if mode == "conc" else [], label="replay", selftest=False)
